@@ -239,4 +239,12 @@ theorem adjacent_transposition (pre post : List Nat) (a b : Nat)
   have d0 : a ^^^ b = 0 := by omega
   exact xor_eq_zero d0
 
+theorem polymodFrom_lt' (vs : List Nat) (c : Nat) (hc : c < 2 ^ 30) (hv : ∀ v ∈ vs, v < 2 ^ 30) :
+    List.foldl polymodStep c vs < 2 ^ 30 := by
+  induction vs generalizing c with
+  | nil => exact hc
+  | cons v vs ih =>
+    simp only [List.foldl_cons]
+    exact ih _ (step_lt c v (hv v (List.mem_cons_self ..))) (fun x hx => hv x (List.mem_cons_of_mem _ hx))
+
 end Btc.Bech32
